@@ -18,6 +18,12 @@ instance (N : Nat) (σ : List Nat) : Decidable (IsSchedule N σ) :=
 def Overlap (σ : List Nat) : Prop :=
   ∃ σ₁ σ₂ i j, σ = σ₁ ++ j :: σ₂ ∧ i ≠ j ∧ σ₁.count i = 1 ∧ σ₁.count j = 0
 
+/-- the table is dense: its primary keys are exactly 0 … rows-1 (what a database written only by this
+    code looks like; a deleted row or a foreign writer breaks it) -/
+def DenseIds (ids : List Nat) : Prop := ids = List.range ids.length
+
+instance (ids : List Nat) : Decidable (DenseIds ids) := inferInstanceAs (Decidable (ids = List.range ids.length))
+
 /-- outcome per session: `some k` = created with identifier k, `none` = not created -/
 def AllCreatedDistinct (N : Nat) (outcome : Nat → Option Nat) : Prop :=
   (∀ i, i < N → ∃ k, outcome i = some k) ∧
